@@ -64,5 +64,51 @@ func buildPipeline(g *scheduler.ExecutionGraph, stages []*stageDefinition, cfg *
 		}
 	}
 
+	// depends_on may name a stage declared later, so it is checked once all stages are known
+	for name, stage := range g.Nodes() {
+		for _, dep := range stage.DependsOn {
+			if _, err := g.Node(dep); err != nil {
+				return nil, fmt.Errorf("stage %s depends on unknown stage %s", name, dep)
+			}
+		}
+	}
+
 	return g, nil
+}
+
+// checkPipelineInclusion reports pipelines that include themselves, directly or through other pipelines
+func checkPipelineInclusion(pipelines map[string]*scheduler.ExecutionGraph) error {
+	const (
+		visiting = 1
+		done     = 2
+	)
+	state := make(map[*scheduler.ExecutionGraph]int)
+
+	var visit func(g *scheduler.ExecutionGraph) bool
+	visit = func(g *scheduler.ExecutionGraph) bool {
+		switch state[g] {
+		case visiting:
+			return false
+		case done:
+			return true
+		}
+
+		state[g] = visiting
+		for _, stage := range g.Nodes() {
+			if stage.Pipeline != nil && !visit(stage.Pipeline) {
+				return false
+			}
+		}
+		state[g] = done
+
+		return true
+	}
+
+	for name, g := range pipelines {
+		if !visit(g) {
+			return fmt.Errorf("pipeline %s includes itself, directly or through other pipelines", name)
+		}
+	}
+
+	return nil
 }
